@@ -12,11 +12,13 @@ LINK_CLASS_MENU = {
 TWO_ENDED = {"DE", "UE", "SD", "SU", "TE"}
 
 
-def make_vertices(B, n, classes=None):
+def make_vertices(B, n, classes=None, uid=None):
+    """pool vertices; with ``uid`` all of them carry that same caller-supplied uid (legal: uid= is unchecked,
+    and copies keep the uid of their original)"""
     out = []
     for i in range(n):
         cn = classes[i] if classes else "Vertex"
-        out.append(B.new(VNAMES[i], cn))
+        out.append(B.new(VNAMES[i], cn) if uid is None else B.new(VNAMES[i], cn, uid=uid))
     return out
 
 
